@@ -44,6 +44,36 @@ def load_known() -> dict:
     return {"findings": [], "fixed": []}
 
 
+def table_culprits(facts: dict, tables: list[str]) -> dict:
+    """for a report only: which classes / framework facts falsify a table obligation (the verdict itself is Lean's `decide`)"""
+    out = {}
+    algos = facts.get("algos", [])
+    core = facts.get("core", {})
+    steps = facts.get("steps", {}).get("classes", {})
+
+    def cls(pred, show):
+        return {a["cls"]: show(a) for a in algos if pred(a)}
+    for t in tables:
+        if t == "T01":
+            out[t] = cls(lambda a: a["cls"] != "ImperialistCompetitiveOptimization" and (any(c["kind"] == "raw" for c in a["ctors"]) or a["coreStores"] or a["badCopyUpdates"] or a["objectiveRefs"]),
+                         lambda a: {"raw": [c["where"] for c in a["ctors"] if c["kind"] == "raw"], "coreStores": a["coreStores"], "badCopyUpdates": a["badCopyUpdates"], "objectiveRefs": a["objectiveRefs"]})
+        elif t == "T09":
+            out[t] = cls(lambda a: a["cfgWrites"] or a["taskWrites"] or a["frameworkFieldWrites"], lambda a: {"cfgWrites": a["cfgWrites"], "taskWrites": a["taskWrites"], "frameworkFieldWrites": a["frameworkFieldWrites"]})
+        elif t == "T07":
+            out[t] = {"classes": cls(lambda a: a["rngOther"], lambda a: a["rngOther"]), "prologue": core.get("prologueOrder", [])[:3], "seedAnnotation": core.get("seedAnnotation"), "helperRng": core.get("helperRng")}
+        elif t == "T08":
+            out[t] = cls(lambda a: a["leakFields"] or a["frameworkFieldWrites"], lambda a: {"leakFields": a["leakFields"], "frameworkFieldWrites": a["frameworkFieldWrites"]})
+        elif t == "T12":
+            out[t] = cls(lambda a: a["cls"] not in ("AntLionOptimization", "ImperialistCompetitiveOptimization") and (a["fitnessReads"] or a["directionReads"]), lambda a: {"fitnessReads": a["fitnessReads"], "directionReads": a["directionReads"]})
+        elif t == "T18":
+            out[t] = cls(lambda a: a["ctorReadsConfig"] or not a["setConfigCanonical"], lambda a: {"ctorReadsConfig": a["ctorReadsConfig"], "setConfigCanonical": a["setConfigCanonical"]})
+        elif t in ("T10", "T17"):
+            out[t] = {k: {"sizePreserving": v["sizePreserving"], "monotone": v["monotone"], "opaque": v["opaque"][:3]} for k, v in steps.items()} if False else "see .work/facts.json: steps.classes (sizePreserving / monotone per class) and steps.coreShapes"
+        elif t in ("T04", "T05", "T11"):
+            out[t] = {k: core.get(k) for k in ("prologueOrder", "objectiveCallers", "initAgentShape", "solveShape", "initialSolutionShape", "poolResultsShape", "poolExecutorShape", "whileLoops")}
+    return out
+
+
 class Ctx:
     def __init__(self, prop: str, tier: str, seed: int):
         self.prop = prop
@@ -152,6 +182,10 @@ class Ctx:
                 self.broken.append("leanchecker rejects the compiled modules")
         self.extra["axioms"] = sorted({x for v in a["theorems"].values() for x in v})
         self.extra["modules"] = modules
+        failed_tables = [m.rsplit(".", 1)[1] for m in modules if m not in good and m.rsplit(".", 1)[1].startswith("T")]
+        if failed_tables:
+            self.extra["table_culprits"] = table_culprits(self.facts, failed_tables)
+            self.extra["build_output_tail"] = self.extra.get("build_output_tail", "") + "\n--- classes / facts that falsify the table obligations ---\n" + json.dumps(self.extra["table_culprits"], indent=1)[:3000]
         return not self.broken
 
     # -- finish -------------------------------------------------------------------------------------
